@@ -4,6 +4,9 @@
 //!  A  macro expansion: every ordered triple of the curated definition alphabet × every invocation form (× 2 whitespace
 //!     styles), compared token by token with a reference C macro expander (Prosser hide sets, no `#`).
 //!     A4 (thorough): a fourth definition from an 8-element sub-alphabet.
+//!  P  operand spellings of `##`: every pair (P2, 7 routes of an operand to ##) and every triple (P3, chains `a ## b ## c`,
+//!     3 routes) of a 21-element operand alphabet (identifiers, decimal / hexadecimal / octal / suffixed integer literals):
+//!     the paste is the concatenation of the operand *spellings* re-read as one token (class `paste-operand-spelling`).
 //!  B  `#undef` / redefinition between two uses ("take effect from their line onward").
 //!  C  include graphs (3 files quick / 4 files thorough, ≤ 2 lines per file): preprocess(entry) == preprocess(pasted text).
 //!  D  define placement: defines argument of preprocess()/compile() vs `#define` lines before the first line
@@ -16,7 +19,7 @@
 //! Signature vocabulary:
 //!   macro|expansion-differs|<class>      valid, non-recursive program expands to something else than the reference (or is
 //!                                        rejected); classes: name-meets-parenthesis-after-empty-expansion,
-//!                                        newline-before-argument-list, after-redefinition-or-undef (space B), paste,
+//!                                        newline-before-argument-list, after-redefinition-or-undef (space B), paste, paste-operand-spelling (space P),
 //!                                        args-from-following-text, unused-paste-in-table, plain
 //!   macro|stack-overflow|recursive-macro    expansion of a self-referential macro does not terminate (worker died);
 //!                                        also macro|does-not-terminate|.. (CPU limit) and ..|non-recursive
@@ -424,11 +427,36 @@ fn expected_token(sp: &str) -> Option<Token> {
         return None;
     }
     if first.is_ascii_digit() {
-        // decimal integers without leading zero only (everything else is outside the reference grammar)
-        if sp.chars().all(|c| c.is_ascii_digit()) && (sp == "0" || first != '0') {
-            return sp.parse::<u64>().ok().map(Token::LiteralInt);
-        }
-        return None;
+        // integer literals: decimal without leading zero, hexadecimal `0x..`, octal `0` + octal digits, each with an optional
+        // u / l / ul / lu suffix in either case (everything else, e.g. `08`, `0X1`, `1f`, `1.5`, is outside the reference grammar)
+        let lower = sp.to_ascii_lowercase();
+        let (digits, suffix) = ["ul", "lu", "u", "l"]
+            .iter()
+            .find(|s| lower.ends_with(**s))
+            .map(|s| (&sp[..sp.len() - s.len()], *s))
+            .unwrap_or((sp, ""));
+        let value = if let Some(h) = digits.strip_prefix("0x") {
+            if h.is_empty() || !h.chars().all(|c| c.is_ascii_hexdigit()) {
+                return None;
+            }
+            u64::from_str_radix(h, 16).ok()?
+        } else if digits.len() > 1 && first == '0' {
+            if !digits.chars().all(|c| ('0'..='7').contains(&c)) {
+                return None;
+            }
+            u64::from_str_radix(digits, 8).ok()?
+        } else {
+            if digits.is_empty() || !digits.chars().all(|c| c.is_ascii_digit()) {
+                return None;
+            }
+            digits.parse::<u64>().ok()?
+        };
+        return Some(match suffix {
+            "" => Token::LiteralInt(value),
+            "u" => Token::LiteralIntUnsigned32(value),
+            "l" => Token::LiteralIntSigned64(value as i64),
+            _ => Token::LiteralIntUnsigned64(value),
+        });
     }
     Some(match sp {
         "(" => Token::LeftParen,
@@ -1050,6 +1078,8 @@ fn macro_class(space: &str, lines: &[Line], f: &RefFlags) -> &'static str {
         "newline-before-argument-list"
     } else if space == "redef" {
         "after-redefinition-or-undef"
+    } else if space == "pastelit" && f.pastes > 0 {
+        "paste-operand-spelling"
     } else if f.pastes > 0 {
         "paste"
     } else if f.args_from_following_text {
@@ -1342,6 +1372,48 @@ fn prog_b(al: &Alphabets, digits: &[u64]) -> Vec<Line> {
     }
     lines.push(use_line(form));
     lines
+}
+
+// ---------------------------------------------------------------------------------------------
+// space P: spellings of the operands of ## (the paste uses the operand's spelling, not its value)
+
+/// operands of ##: identifiers (some of which complete a literal: `0 ## x10`, `1 ## u`, `0x1 ## F`) and integer literals in
+/// every spelling class of the lexer: decimal, hexadecimal, octal / leading zeros, suffixed. None of them is a macro or
+/// parameter name of the templates.
+const PASTE_OPERANDS: &[&str] = &[
+    "reg", "x10", "u", "L", "F", "0", "1", "12", "0x10", "0x1", "0xA", "0x0a", "007", "01", "010", "00", "1u", "2U", "3L", "0x1Fu", "07ul",
+];
+
+const PASTE2_TEMPLATES: u64 = 7;
+const PASTE3_TEMPLATES: u64 = 3;
+
+/// every way an operand reaches ##: as an argument substituted for a parameter or as a direct token of the body, on either
+/// side, in object-like / function-like / parameterless macros, through an outer macro, and next to a plain use of the
+/// same parameters
+fn prog_paste2(template: u64, a: &str, b: &str) -> Vec<Line> {
+    let cat = "CAT(pa,pb) := pa ## pb";
+    let (defs, use_): (Vec<String>, String) = match template {
+        0 => (vec![cat.to_string()], format!("CAT ( {} , {} )", a, b)),
+        1 => (vec![format!("OBJ := {} ## {}", a, b)], "OBJ".to_string()),
+        2 => (vec![format!("PL(pa) := pa ## {}", b)], format!("PL ( {} )", a)),
+        3 => (vec![format!("PR(pb) := {} ## pb", a)], format!("PR ( {} )", b)),
+        4 => (vec![format!("NOARG() := {} ## {}", a, b)], "NOARG ( )".to_string()),
+        5 => (vec![cat.to_string(), "WRAP(pa,pb) := CAT ( pa , pb )".to_string()], format!("WRAP ( {} , {} )", a, b)),
+        _ => (vec!["BOTH(pa,pb) := [ pa ## pb , pa , pb ]".to_string()], format!("BOTH ( {} , {} )", a, b)),
+    };
+    let mut lines: Vec<Line> = defs.iter().map(|d| Line::Define(def(d))).collect();
+    lines.push(use_line(&use_));
+    lines
+}
+
+/// chains `a ## b ## c` (the result of the first paste is an operand of the second)
+fn prog_paste3(template: u64, a: &str, b: &str, c: &str) -> Vec<Line> {
+    let (d, use_) = match template {
+        0 => ("CAT3(pa,pb,pc) := pa ## pb ## pc".to_string(), format!("CAT3 ( {} , {} , {} )", a, b, c)),
+        1 => (format!("MID(pb) := {} ## pb ## {}", a, c), format!("MID ( {} )", b)),
+        _ => (format!("OBJ3 := {} ## {} ## {}", a, b, c), "OBJ3".to_string()),
+    };
+    vec![Line::Define(def(&d)), use_line(&use_)]
 }
 
 // ---------------------------------------------------------------------------------------------
@@ -2097,6 +2169,36 @@ pub fn run(ctx: &Ctx) -> i32 {
         });
     }
 
+    // ---- P: operand spellings of ## (every pair / triple of the operand alphabet × every route of an operand to ##)
+    {
+        let no = PASTE_OPERANDS.len() as u64;
+        let styles = ctx.pick(1u64, 3u64);
+        let quick = ctx.quick();
+        let radices = [no, no, PASTE2_TEMPLATES, styles];
+        run_space(ctx, &mut rep, "P2_paste_operand_pairs", product(&radices), 64, |idx, acc| {
+            let mut d = Vec::new();
+            decode(idx, &radices, &mut d);
+            let style = if quick { ((d[0] + d[1] + d[2]) % 3) as u8 } else { d[3] as u8 };
+            let lines = prog_paste2(d[2], PASTE_OPERANDS[d[1] as usize], PASTE_OPERANDS[d[0] as usize]);
+            if idx % 499 == 7 {
+                acc.sample(obj(vec![("space", "P2-paste-operands".into()), ("program", render(&lines, style).into())]));
+            }
+            case_macro_prog(idx, "pastelit", lines, style, true, false)
+        });
+        let radices = [no, no, no, PASTE3_TEMPLATES, styles];
+        run_space(ctx, &mut rep, "P3_paste_operand_triples", product(&radices), 128, |idx, acc| {
+            let mut d = Vec::new();
+            decode(idx, &radices, &mut d);
+            let style = if quick { ((d[0] + d[1] + d[2] + d[3]) % 3) as u8 } else { d[4] as u8 };
+            let lines = prog_paste3(d[3], PASTE_OPERANDS[d[2] as usize], PASTE_OPERANDS[d[1] as usize], PASTE_OPERANDS[d[0] as usize]);
+            if idx % 4999 == 13 {
+                acc.sample(obj(vec![("space", "P3-paste-operands".into()), ("program", render(&lines, style).into())]));
+            }
+            case_macro_prog(idx, "pastelit", lines, style, true, false)
+        });
+        rep.cov("paste_operand_alphabet", Json::Arr(PASTE_OPERANDS.iter().map(|d| Json::Str(d.to_string())).collect()));
+    }
+
     // ---- B: redefinition / #undef between two uses
     {
         let nforms_b = nf - 1; // without the unterminated form
@@ -2189,7 +2291,7 @@ pub fn run(ctx: &Ctx) -> i32 {
     rep.cov("definition_alphabet", Json::Arr(DEFS.iter().map(|d| Json::Str(d.to_string())).collect()));
     rep.cov("invocation_forms", Json::Arr(FORMS.iter().map(|d| Json::Str(d.to_string())).collect()));
     rep.assumptions = vec![
-        "reference = Prosser's hide-set algorithm over whitespace-free token lists (cross-checked against gcc -E and clang -E on the whole definition/form alphabet during construction); the token grammar of the reference is identifiers, decimal integers and the punctuation used by the alphabets".into(),
+        "reference = Prosser's hide-set algorithm over whitespace-free token lists (cross-checked against gcc -E and clang -E on the whole definition/form alphabet during construction); the token grammar of the reference is identifiers, integer literals (decimal, `0x` hexadecimal, octal with leading zero, optional u/l/ul/lu suffix; a paste is the concatenation of the operand spellings, re-read as one token of this grammar) and the punctuation used by the alphabets".into(),
         "if the reference ever leaves a name unexpanded because it is painted (recursive macro set), only termination without panic is required and nothing is compared (the property promises termination only; the C standard leaves part of these cases unspecified)".into(),
         "excluded from comparison (no panic/termination only): ## with an operand that is a defined macro name, ## with an empty argument as operand (placemarker), ## whose result is not one token of the reference grammar, # stringification (never generated), macro bodies with unbalanced parentheses (never generated), invocations that span a directive line (never generated: every use line ends in ';')".into(),
         "ill-formed invocations (wrong arity, unterminated argument list): the property does not demand rejection, so only 'no panic' is required; both-reject is counted".into(),
@@ -2205,7 +2307,7 @@ pub fn replay(ctx: &Ctx, body: &str) -> i32 {
     let mut acc = Acc::default();
     let (kind, rest) = body.split_once('\n').unwrap_or((body, ""));
     match kind.trim() {
-        "kind: macro" | "kind: redef" => {
+        "kind: macro" | "kind: redef" | "kind: pastelit" => {
             let space = kind.trim().strip_prefix("kind: ").unwrap();
             let (lines, style) = match parse_prog(rest) {
                 Ok(x) => x,
@@ -2216,8 +2318,12 @@ pub fn replay(ctx: &Ctx, body: &str) -> i32 {
             };
             let text = render(&lines, style);
             println!("program:\n{}", text);
-            let space: &'static str = if space == "redef" { "redef" } else { "macro" };
-            run_cases(vec![case_macro_prog(0, space, lines, style, space == "macro", true)], &mut acc);
+            let space: &'static str = match space {
+                "redef" => "redef",
+                "pastelit" => "pastelit",
+                _ => "macro",
+            };
+            run_cases(vec![case_macro_prog(0, space, lines, style, space != "redef", true)], &mut acc);
         }
         "kind: placement" => {
             let mut it = rest.splitn(3, '\n');
